@@ -715,7 +715,11 @@ class Solver:
                     new_args[key] = update_dic[key]
                 new_value = func(**new_args)
             start_dic.update({name: new_value})
-        self.param_dic.update(self.default_params)
+        # a default of None is the placeholder for "no default" (e.g. the solver's initial wl):
+        # it must not reach the components as a value and hide their own defaults
+        self.param_dic.update(
+            {key: value for key, value in self.default_params.items() if value is not None}
+        )
         self.param_dic.update(update_dic)
         self.param_dic.update(start_dic)
 
